@@ -59,7 +59,13 @@ def positions(seed, L=None, noisy=False):
     pos_to[5] += [1, -2, 3]  # outside [0,1)
     pos_to[40] -= [2, 0, 1]
     pos_from = np.array([[0.0, 0, 0], g.uniform(0, 1, 3).round(6)])
-    if noisy:
+    if noisy == "ladder":
+        # noise of the order of symprec itself: formerly tied images now differ by 0 .. ~2.5 symprec in length, so that the
+        # rule "keep exactly those within symprec of the minimum" is exercised on both sides of the threshold
+        Li = np.linalg.inv(L)
+        pos_to = pos_to + (g.uniform(-1, 1, pos_to.shape) * 0.6 * SYMPREC) @ Li
+        pos_from = pos_from + (g.uniform(-1, 1, pos_from.shape) * 0.6 * SYMPREC) @ Li
+    elif noisy:
         # positions symmetric only up to noise far below symprec: tied images then differ by ~1e-7 in length and
         # must all be kept ("within the symmetry tolerance")
         Li = np.linalg.inv(L)
@@ -76,7 +82,7 @@ def plan(tier, seed):
     chunk = 40
     for k in range(0, len(lats), chunk):
         groups.append([{"kind": "lattice", "lat": l, "storage": st, "noisy": nz} for l in lats[k:k + chunk] for st in ("dense", "sparse")
-                       for nz in (False, True)])
+                       for nz in (False, True, "ladder")])
     prim = []
     for pre in prefixes(tier, seed):
         for st in ("dense", "sparse"):
@@ -110,7 +116,7 @@ def oracle_pairs(L, pos_to, pos_from):
     return d, d0, box, img, ln, m
 
 
-def judge_pairs(L, pos_to, pos_from, get_vecs, symprec=SYMPREC, tie_tol=None):
+def judge_pairs(L, pos_to, pos_from, get_vecs, symprec=SYMPREC, tie_tol=None, window=False):
     """get_vecs(i,j) -> (k,3) array of stored vectors in the fractional coordinates of L.  Returns (failure|None, counters)."""
     d, d0, box, img, ln, m = oracle_pairs(L, pos_to, pos_from)
     scale = np.linalg.norm(L, axis=1).max()
@@ -120,8 +126,14 @@ def judge_pairs(L, pos_to, pos_from, get_vecs, symprec=SYMPREC, tie_tol=None):
         for j in range(len(pos_from)):
             l = ln[i, j]
             mm = m[i, j]
-            exact = l - mm < (1e-9 * scale if tie_tol is None else tie_tol)
-            near = (l - mm < 50 * symprec) & ~exact
+            if window:
+                # the documented rule itself: an image belongs to the set iff its length exceeds the minimum by less than symprec;
+                # only images within 2% of the threshold are left undecided
+                exact = l - mm < 0.98 * symprec
+                near = (l - mm < 1.02 * symprec) & ~exact
+            else:
+                exact = l - mm < (1e-9 * scale if tie_tol is None else tie_tol)
+                near = (l - mm < 50 * symprec) & ~exact
             if near.any():
                 cnt["pairs_skipped_near_tie"] += 1
                 continue
@@ -142,7 +154,7 @@ def judge_pairs(L, pos_to, pos_from, get_vecs, symprec=SYMPREC, tie_tol=None):
             if np.abs(nn - np.rint(nn)).max() > 1e-7:
                 return ("not-an-image", "pair (%d,%d): stored vector %s is not separation + lattice vector" % (i, j, stored[0].round(5).tolist())), cnt
             sl = np.linalg.norm(stored @ L, axis=1)
-            if (sl - mm > (1e-7 * scale if tie_tol is None else 2 * tie_tol)).any():
+            if (sl - mm > (1.02 * symprec if window else (1e-7 * scale if tie_tol is None else 2 * tie_tol))).any():
                 return ("too-long", "pair (%d,%d): stored length %.8f > true minimum %.8f" % (i, j, sl.max(), mm)), cnt
             if False:
                 pass
@@ -161,10 +173,10 @@ def run_lattice(case, seed):
     from phonopy.structure.cells import dense_to_sparse_svecs, get_smallest_vectors, sparse_to_dense_svecs
 
     L = basis(case["lat"])
-    noisy = bool(case.get("noisy"))
+    noisy = case.get("noisy")
     pos_to, pos_from = positions(seed, L, noisy)
     dense = case["storage"] == "dense"
-    tag = case["storage"] + ("/noisy-ties" if noisy else "")
+    tag = case["storage"] + ("/ties-spread-around-symprec" if noisy == "ladder" else "/noisy-ties" if noisy else "")
     try:
         sv, mu = get_smallest_vectors(L, pos_to, pos_from, store_dense_svecs=dense, symprec=SYMPREC)
     except Exception as e:
@@ -180,7 +192,7 @@ def run_lattice(case, seed):
     else:
         def get(i, j):
             return sv[i, j, :mu[i, j]]
-    bad, cnt = judge_pairs(L, pos_to, pos_from, get, tie_tol=(1e-6 if noisy else None))
+    bad, cnt = judge_pairs(L, pos_to, pos_from, get, tie_tol=(1e-6 if noisy else None), window=(noisy == "ladder"))
     mm_ = cnt.pop("_maxmult", 0)
     if bad:
         return dict(ok=False, sig="C05/%s/%s" % (bad[0], tag), msg="lattice %s %s: %s" % (case["lat"], tag, bad[1]), count=cnt)
